@@ -234,6 +234,12 @@ fn c08_c01_send_iovec_all_fds_first_byte_only_bounded() {
 // ---- model of recv_into_iovec_all for the framing functions: delivers any n <= total bytes (arbitrary content)
 static mut R_N: usize = 0;
 static mut R_FILES: usize = 0;
+// the request-code decoder is replaced by an arbitrary verdict (which codes exist is C20's c20_*_req_code_table obligation);
+// the rest of the header validator runs for real
+static mut HDR_VERDICT: bool = false;
+fn stub_get_code<R: Req>(_h: &VhostUserMsgHeader<R>) -> Result<R> {
+    if unsafe { HDR_VERDICT } { R::try_from(1).map_err(|_| Error::InvalidMessage) } else { Err(Error::InvalidMessage) }
+}
 unsafe fn stub_recv_into_iovec_all<H: MsgHeader>(_s: &mut Endpoint<H>, iovs: &mut [iovec]) -> Result<(usize, Option<Vec<File>>)> {
     // fill the header iovec (12 bytes) with arbitrary bytes; body/payload iovecs keep whatever they had
     if iovs.len() >= 1 && iovs[0].iov_len == 12 {
@@ -251,14 +257,16 @@ unsafe fn stub_recv_into_iovec_all<H: MsgHeader>(_s: &mut Endpoint<H>, iovs: &mu
     kani::assume(n <= total);
     R_N = n;
     let fail: bool = kani::any();
-    if fail { return Err(Error::SocketBroken(std::io::Error::from_raw_os_error(104))); }
+    if fail { return Err(Error::BackendInternalError); }     // (a payload-free variant stands for any socket error: io::Error drop glue is CBMC-expensive)
     Ok((n, None))
 }
 
 #[kani::proof]
 #[kani::stub(Endpoint::<H>::recv_into_iovec_all, stub_recv_into_iovec_all)]
+#[kani::stub(VhostUserMsgHeader::<R>::get_code, stub_get_code)]
 #[kani::unwind(5)]
 fn c08_recv_header_classification() {
+    unsafe { HDR_VERDICT = kani::any(); }
     let mut e = ep_b();
     let r = e.recv_header();
     let n = unsafe { R_N };
@@ -267,7 +275,7 @@ fn c08_recv_header_classification() {
         Err(Error::Disconnected) => assert!(n == 0),                                   // clean close only at a boundary
         Err(Error::PartialMessage) => assert!(n > 0 && n < 12),                        // cut inside the header
         Err(Error::InvalidMessage) => assert!(n == 12),
-        Err(Error::SocketBroken(_)) => {}
+        Err(Error::BackendInternalError) => {}
         Err(_) => assert!(false),
     }
     core::mem::forget(e);
@@ -275,8 +283,10 @@ fn c08_recv_header_classification() {
 
 #[kani::proof]
 #[kani::stub(Endpoint::<H>::recv_into_iovec_all, stub_recv_into_iovec_all)]
+#[kani::stub(VhostUserMsgHeader::<R>::get_code, stub_get_code)]
 #[kani::unwind(5)]
 fn c08_recv_body_classification() {
+    unsafe { HDR_VERDICT = kani::any(); }
     let mut e = ep_b();
     let r = e.recv_body::<VhostUserU64>();
     let n = unsafe { R_N };
@@ -284,7 +294,7 @@ fn c08_recv_body_classification() {
         Ok((hdr, _body, _)) => { assert!(n == 20); assert!(hdr.is_valid()); }          // never a value from a short read
         Err(Error::PartialMessage) => assert!(n != 20),
         Err(Error::InvalidMessage) => assert!(n == 20),
-        Err(Error::SocketBroken(_)) => {}
+        Err(Error::BackendInternalError) => {}
         Err(_) => assert!(false),
     }
     core::mem::forget(e);
@@ -292,8 +302,10 @@ fn c08_recv_body_classification() {
 
 #[kani::proof]
 #[kani::stub(Endpoint::<H>::recv_into_iovec_all, stub_recv_into_iovec_all)]
+#[kani::stub(VhostUserMsgHeader::<R>::get_code, stub_get_code)]
 #[kani::unwind(5)]
 fn c08_recv_payload_into_buf_classification() {
+    unsafe { HDR_VERDICT = kani::any(); }
     let mut e = ep_b();
     let mut buf = [0u8; 16];
     let blen: usize = kani::any();
@@ -304,7 +316,7 @@ fn c08_recv_payload_into_buf_classification() {
         Ok((hdr, _body, bytes, _)) => { assert!(n >= 24 && bytes == n - 24 && bytes <= blen); assert!(hdr.is_valid()); }
         Err(Error::PartialMessage) => assert!(n < 24),
         Err(Error::InvalidMessage) => assert!(n >= 24),
-        Err(Error::SocketBroken(_)) => {}
+        Err(Error::BackendInternalError) => {}
         Err(_) => assert!(false),
     }
     core::mem::forget(e);
